@@ -75,7 +75,11 @@ pub fn write_summary(a: &Args, v: &Value) {
 /// Writes the 64-bit hashes of the non-trivial cases of this shard (the driver unions them over
 /// shards to count *distinct* non-trivial cases exactly).
 pub fn write_hashes(a: &Args, hs: &[u64]) {
-    let p = format!("{}/{}-shard{}.hashes", a.out_dir, a.prop, a.shard_i);
+    write_hashes_as(a, &a.prop, hs)
+}
+
+pub fn write_hashes_as(a: &Args, prop: &str, hs: &[u64]) {
+    let p = format!("{}/{}-shard{}.hashes", a.out_dir, prop, a.shard_i);
     let mut b = Vec::with_capacity(hs.len() * 8);
     for h in hs {
         b.extend_from_slice(&h.to_le_bytes());
